@@ -15,6 +15,8 @@ INVARIANT ByComponentAgreesWithBlockLevel
 INVARIANT BurnupIgnoresVolume
 INVARIANT MedianIsEligibleMember
 INVARIANT MedianIsMiddle
+INVARIANT CylinderSourceIsMiddle
+INVARIANT StorageOrderIrrelevant
 INVARIANT OutcomeRule
 PROPERTY CreateLeavesMembers
 CHECK_DEADLOCK FALSE
